@@ -1,7 +1,9 @@
 package props
 
 import (
+	"encoding/json"
 	"fmt"
+	"os"
 	"time"
 
 	"verif/harness/rt"
@@ -132,6 +134,7 @@ func init() {
 		Run: func(c *rt.Ctx) {
 			c.Cov["rule"] = "E3 on the wallet world (real wallets on bbolt, real mints on SQLite, in-process transport, shared Lightning model): every history up to the depth bound over {mint 16, send x in {1,3,5} with / without fees, receive (same mint, other wallet, untrusted mint with and without swap-to-trusted), melt of an external 4-sat invoice x {Succeeded, Failed, Pending}, backend settles / fails the pending payment, check melt quote, reclaim, remove spent, add mint, mint-swap A->B x {payment succeeds, fails}, keyset rotation with fee 0 / 100, wallet reload}; in every state: GetBalance == sum of stored spendable proofs == sum of GetBalanceByMints, every spendable proof UNSPENT at its mint, PendingBalance == stored pending proofs which were all handed out or submitted to a melt, every plain-sent unspent proof still pending in its sender, no secret spendable twice, and for every mint outstanding ecash (issued - redeemed) == value of not-spent secrets held by wallets (spendable + pending) and tokens in flight; every swap / melt request a mint accepted gives up exactly the mint's input fee ceil(sum ppk/1000) beyond its outputs (amount + Lightning fee + change for melts), audited from the recorded HTTP exchanges; a further search starts from a wallet holding proofs of two keysets with the same fee (rotation mid-history) and spends amounts that need inputs from both"
 			runWSpecs(c, c17Specs(c.Quick()))
+			runC17Faults(c)
 			c.Cov["rule_schedules"] = "E1 on one wallet object (beyond the statement's sequential quantifier): two / three concurrent Send, SendToPubkey and Receive calls, every interleaving at wallet-store-call and HTTP-request granularity with at most B preemptions (iterative bounding 0..B); per execution: no proof returned by two sends, every send returns at least the amount asked, then all C17 invariants"
 			if c.Quick() {
 				runSched(c, "C17", []string{"W1-send-send-same-proof", "W2-send-send-one-big-proof", "W3-send-sendpk", "W4-send-receive"}, 2)
@@ -140,8 +143,28 @@ func init() {
 				runSched(c, "C17", []string{"W5-send-send-send"}, 2)
 			}
 		},
-		Worker: dispatchWorker(wWorker(c17All)),
+		Worker: func(job json.RawMessage) (any, error) {
+			if r, ok := c17FaultWorker(job); ok {
+				return r, nil
+			}
+			return dispatchWorker(wWorker(c17All))(job)
+		},
 		Replay: func(p string) int {
+			if b, err := os.ReadFile(p); err == nil {
+				var v struct{ Replay c17FaultJob }
+				if json.Unmarshal(b, &v) == nil && v.Replay.FaultScn != "" {
+					res := c17FaultExec(v.Replay)
+					fmt.Println("fault at", res.Fault, res.Err)
+					for _, x := range res.V {
+						fmt.Printf("  C17/%s: %s\n", x.Key, x.What)
+					}
+					if len(res.V) > 0 {
+						fmt.Printf("VIOLATION property=C17 replay=%s\n", p)
+						return 1
+					}
+					return 0
+				}
+			}
 			if code, ok := replaySched("C17", p); ok {
 				return code
 			}
